@@ -65,9 +65,8 @@ MANIFEST = {
             "(4) Not in Tree.v: LYD_NEW, opaque nodes, anydata, several modules, hashes / lyds trees (C04); merge on these is decided "
             "by mergekinds against a Python reference (which leaves the default mark of non-presence containers and the order inside "
             "system-ordered lists to mergemodel / the invariant checker). LYD_DUP_NO_EXT / extension data (schema mount) and "
-            "notifications are not exercised. Known findings: dup-to-ctx-any-tree-ctx, dup-to-ctx-key-lookup, "
-            "merge-opaque-nested-dup-inst, merge-opaque-value-update (known_findings.d/c14x.json); because the last two abort the "
-            "process, only every 8th mergekinds case places opaque nodes where they hit them.",
+            "notifications are not exercised. Findings of these oracles, all fixed (known_findings.d/c14x.json: 328b4fe 2848a32 "
+            "1e72cd5 aad6b04 c60598c); their witnesses are regression cases in corpus/dupmatrix.txt and corpus/mergekinds.txt.",
     "technique": "Coq proof about a transcribed functional model + differential correspondence on libyang dumps + metamorphic API "
                  "oracle under ASan",
 }
